@@ -129,23 +129,23 @@ func (o *oneShot) Read(p []byte) (int, error) {
 
 // C16Stats counters.
 type C16Stats struct {
-	Parses       int            `json:"parses"`
-	Variants     int            `json:"variants"`
-	Discarded    int            `json:"baselines_discarded"`
-	Calibrated   int            `json:"line_breaks_calibrated"`
-	CalibRejects int            `json:"line_breaks_rejected_by_calibration"`
-	Reads        int            `json:"reads"`
-	ShortReads   int            `json:"short_reads"`
-	OneByteReads int            `json:"one_byte_reads"`
-	EOFWithData  int            `json:"data_plus_eof"`
-	Straddle     int            `json:"tokens_straddling_1024_multiple"`
-	ByKind       map[string]int `json:"by_kind"`
-	BySize       map[string]int `json:"by_size_class"`
-	ByPolicy     map[string]int `json:"by_reader_policy"`
-	Bytes        int64          `json:"bytes_parsed"`
+	Parses       int             `json:"parses"`
+	Variants     int             `json:"variants"`
+	Discarded    int             `json:"baselines_discarded"`
+	Calibrated   int             `json:"line_breaks_calibrated"`
+	CalibRejects int             `json:"line_breaks_rejected_by_calibration"`
+	Reads        int             `json:"reads"`
+	ShortReads   int             `json:"short_reads"`
+	OneByteReads int             `json:"one_byte_reads"`
+	EOFWithData  int             `json:"data_plus_eof"`
+	Straddle     int             `json:"tokens_straddling_1024_multiple"`
+	ByKind       map[string]int  `json:"by_kind"`
+	BySize       map[string]int  `json:"by_size_class"`
+	ByPolicy     map[string]int  `json:"by_reader_policy"`
+	Bytes        int64           `json:"bytes_parsed"`
 	Distinct     map[string]bool `json:"-"`
-	DistinctKeys []string       `json:"distinct_keys"`
-	Samples      []interface{}  `json:"samples"`
+	DistinctKeys []string        `json:"distinct_keys"`
+	Samples      []interface{}   `json:"samples"`
 }
 
 func newC16Stats() *C16Stats {
@@ -461,22 +461,22 @@ func (c *c16Check) Run(seed, run uint64, rec []uint32, st Stats, only *Viol) []V
 func (c *c16Check) Evidence(st Stats, tier string) (map[string]interface{}, []string) {
 	s := st.(*C16Stats)
 	cov := map[string]interface{}{
-		"evaluations":         s.Parses,
-		"distinct_nontrivial": len(s.Distinct),
-		"rule":                "one case = (seed program, transformation {layout padding at a calibrated line break | stretched token | none}, size, reader schedule); every parse goes through the real parser.Parse on a SimReader whose chunk sizes come from the tape; distinct_nontrivial counts distinct (kind, seed, size/position) variants that reached the oracle",
-		"samples":             s.Samples,
-		"variants":            s.Variants,
-		"baselines_discarded": s.Discarded,
-		"line_breaks_calibrated": s.Calibrated,
+		"evaluations":                         s.Parses,
+		"distinct_nontrivial":                 len(s.Distinct),
+		"rule":                                "one case = (seed program, transformation {layout padding at a calibrated line break | stretched token | none}, size, reader schedule); every parse goes through the real parser.Parse on a SimReader whose chunk sizes come from the tape; distinct_nontrivial counts distinct (kind, seed, size/position) variants that reached the oracle",
+		"samples":                             s.Samples,
+		"variants":                            s.Variants,
+		"baselines_discarded":                 s.Discarded,
+		"line_breaks_calibrated":              s.Calibrated,
 		"line_breaks_rejected_by_calibration": s.CalibRejects,
-		"fault_kinds_fired": map[string]int{"short_read": s.ShortReads, "one_byte_read": s.OneByteReads, "data_plus_eof_runs": s.EOFWithData, "token_straddling_boundary": s.Straddle},
-		"reads":            s.Reads,
-		"by_kind":          s.ByKind,
-		"by_size_class":    s.BySize,
-		"by_reader_policy": s.ByPolicy,
-		"bytes_parsed":     s.Bytes,
-		"simulated_time":   "none (no clock in the parser); steps = Read calls",
-		"real_vs_stub":     map[string]string{"real": "third_party/simplexer lexer, parser (goyacc), ast printer", "stub": "io.Reader delivering the source (SimReader)"},
+		"fault_kinds_fired":                   map[string]int{"short_read": s.ShortReads, "one_byte_read": s.OneByteReads, "data_plus_eof_runs": s.EOFWithData, "token_straddling_boundary": s.Straddle},
+		"reads":                               s.Reads,
+		"by_kind":                             s.ByKind,
+		"by_size_class":                       s.BySize,
+		"by_reader_policy":                    s.ByPolicy,
+		"bytes_parsed":                        s.Bytes,
+		"simulated_time":                      "none (no clock in the parser); steps = Read calls",
+		"real_vs_stub":                        map[string]string{"real": "third_party/simplexer lexer, parser (goyacc), ast printer", "stub": "io.Reader delivering the source (SimReader)"},
 	}
 	if len(s.Samples) == 0 {
 		cov["samples"] = []interface{}{"(none)"}
